@@ -1,6 +1,7 @@
 /-
 Model of `vouched_time/src/atomic_base_time.rs` (`AtomicBaseTime::{snapshot, update,
-try_update, advance_once}` and `BaseTime::{snapshot, update}`).
+try_update, advance_once, sequence, new}` and `BaseTime::{snapshot, update, new}`;
+`Default::default()` is `new()`: the machines have one initial state, `init`).
 
 A thread is `(pc, locals)`; every step performs exactly one atomic access or one
 lock operation, with the location, the kind and the ORDERING the Rust code uses.
@@ -53,7 +54,7 @@ inductive Act where
 
 /-- Program counters.  `s*`: `snapshot`; `u*`: the lock loop of `update`; `t*`:
 `try_update`; `a*`: `advance_once` (+ `BaseTime::snapshot`, `BaseTime::update`) and the
-guard drop that ends `update` / `try_update`. -/
+guard drop that ends `update` / `try_update`; `q*`: `sequence` (one relaxed load). -/
 inductive Pc where
   | idle
   | sSeq        -- let mut sequence = self.sequence.load(Acquire)
@@ -78,11 +79,13 @@ inductive Pc where
   | retBool (r : Bool)     -- update / try_update returned (update's `()` is `advance_once`'s bool, dropped)
   | sPanic      -- the assert in `snapshot` failed
   | aPanic      -- the assert in `BaseTime::update` failed (the caller passed an invalid pair)
+  | qSeq        -- `AtomicBaseTime::sequence`: self.sequence.load(Relaxed)
+  | retSeq      -- sequence() returned `sq`
   deriving DecidableEq, Repr
 
 /-- No operation in progress: a new one may start. -/
 def Pc.terminal : Pc → Bool
-  | .idle | .retSnap | .retBool _ | .sPanic | .aPanic => true
+  | .idle | .retSnap | .retBool _ | .sPanic | .aPanic | .retSeq => true
   | _ => false
 
 /-- Inside `snapshot`. -/
@@ -111,6 +114,7 @@ inductive Op where
   | snapshot
   | update (b v : Nat)
   | tryUpdate (b v : Nat)
+  | sequence                 -- `AtomicBaseTime::sequence()`: one relaxed load of the counter
   deriving DecidableEq, Repr
 
 /-- Entering an operation. -/
@@ -118,6 +122,7 @@ def Local.start (th : Local) : Op → Local
   | .snapshot => { th with pc := .sSeq }
   | .update b v => { th with pc := .uLock, ub := b, uv := v }
   | .tryUpdate b v => { th with pc := .tTry, ub := b, uv := v }
+  | .sequence => { th with pc := .qSeq }
 
 /-- The next access of a thread. -/
 def Local.next (th : Local) : Act :=
@@ -140,7 +145,8 @@ def Local.next (th : Local) : Act :=
   | .aStSeq => .store .seq .rel (th.sq + 1)
   | .aUnlock _ => .unlock false
   | .aUnlockPanic => .unlock true
-  | .idle | .retSnap | .retBool _ | .sPanic | .aPanic => .none
+  | .qSeq => .load .seq .rlx
+  | .idle | .retSnap | .retBool _ | .sPanic | .aPanic | .retSeq => .none
 
 /-- Consuming the value a load returned. -/
 def Local.feedLoad (chk : Nat → Nat → Bool) (th : Local) (val : Nat) : Local :=
@@ -158,6 +164,7 @@ def Local.feedLoad (chk : Nat → Nat → Bool) (th : Local) (val : Nat) : Local
     if th.ub < val then { th with pc := .aUnlock false }
     else if chk th.ub th.uv then { th with pc := .aStB }
     else { th with pc := .aUnlockPanic }
+  | .qSeq => { th with sq := val, pc := .retSeq }
   | _ => th
 
 /-- Consuming the result of `lock` / `try_lock`. -/
@@ -401,6 +408,7 @@ inductive Res where
   | snap (b v : Nat)     -- `snapshot` returned `(b, v)`
   | bool (r : Bool)      -- `try_update` returned `r`; `update` returned (`r` = `advance_once`'s result)
   | panic                -- an `assert!` failed
+  | seqv (n : Nat)       -- `sequence` returned `n`
   deriving DecidableEq, Repr
 
 /-- The result a thread at a terminal pc has just produced (`none`: idle or mid-operation). -/
@@ -409,6 +417,7 @@ def Local.result (th : Local) : Option Res :=
   | .retSnap => some (.snap th.base th.bits)
   | .retBool r => some (.bool r)
   | .sPanic | .aPanic => some .panic
+  | .retSeq => some (.seqv th.sq)
   | _ => none
 
 /-- One completed call.  `vStart` / `vRet`: the caller's view of `sequence` (= index into
